@@ -433,10 +433,13 @@ func main() {
 			capped = capped || o.Ctrl.Aborted
 		}
 	})
+	glueExhaustive := true
+	glue(r, &glueExhaustive)
+	capped = capped || !glueExhaustive
 	if capped {
 		r.CapHit("deadline before all scripts / controller configurations were explored")
 	}
-	r.Set("evaluations", r.Get("schedules")+r.Get("controller_checks"))
+	r.Set("evaluations", r.Get("schedules")+r.Get("controller_checks")+r.Get("glue_callbacks"))
 	keys := make([]string, 0, len(outcomes))
 	for k := range outcomes {
 		keys = append(keys, k)
